@@ -53,6 +53,54 @@ func (c *Ctx) buildCobraModel() *cobraModel {
 			}
 		})
 	}
+	// a getter handed to a helper as a function value and called there: the helper's call of its parameter is a call of
+	// the getter (instantiations of generic helpers are reached through their call sites)
+	{
+		seenFn := map[*ssa.Function]bool{}
+		var helpers []*ssa.Function
+		for callee := range m.callers {
+			if !seenFn[callee] && len(callee.Blocks) > 0 && c.isRepoFunc(callee) {
+				seenFn[callee] = true
+				helpers = append(helpers, callee)
+			}
+		}
+		sort.Slice(helpers, func(i, j int) bool { return fname(helpers[i]) < fname(helpers[j]) })
+		for _, h := range helpers {
+			allInstrs(h, func(in ssa.Instruction) {
+				ci, ok := in.(ssa.CallInstruction)
+				if !ok || ci.Common().IsInvoke() {
+					return
+				}
+				p, ok := ci.Common().Value.(*ssa.Parameter)
+				if !ok || p.Parent() != h {
+					return
+				}
+				idx := -1
+				for i, q := range h.Params {
+					if q == p {
+						idx = i
+					}
+				}
+				for _, site := range m.callers[h] {
+					args := site.Common().Args
+					if idx < 0 || idx >= len(args) {
+						continue
+					}
+					v := args[idx]
+					for {
+						if ct, ok := v.(*ssa.ChangeType); ok {
+							v = ct.X
+							continue
+						}
+						break
+					}
+					if f, ok := v.(*ssa.Function); ok {
+						m.callers[f] = append(m.callers[f], ci)
+					}
+				}
+			})
+		}
+	}
 	sort.Strings(m.all)
 	for _, fn := range m.fns {
 		allInstrs(fn, func(in ssa.Instruction) {
